@@ -667,12 +667,39 @@ def rec_replay(ctx, h, prefix="X06"):
             % (len(nodes), len(edges), nbad))
 
 
+def tlaps(ctx):
+    """Unbounded argument for the property-level specification (spec/proofs/AudioObsProofs.tla): for every number of
+    players, chunk counts and history length the guards of AudioObs imply the promise.  It concerns the specification
+    only (not the code), is re-run in the thorough tier and never changes the verdict: a proof that does not go
+    through on a loaded machine is logged, the TLC runs on AudioObs.cfg stand on their own."""
+    import shutil
+    import subprocess
+    import time
+    if not shutil.which("tlapm"):
+        ctx.extra["tlaps"] = "tlapm not found"
+        return
+    d = tlc.scratch_dir("c17p")
+    for f in ("io/AudioObsDef.tla", "io/AudioObs.tla", "proofs/AudioObsProofs.tla"):
+        shutil.copy(os.path.join(common.VERIF, "spec", f), d)
+    t0 = time.time()
+    try:
+        p = subprocess.run(["tlapm", "--stretch", "4", "--toolbox", "0", "0", "AudioObsProofs.tla"], cwd=d,
+                           stdout=subprocess.PIPE, stderr=subprocess.STDOUT, universal_newlines=True, timeout=1500)
+        last = [l for l in p.stdout.splitlines() if "obligations" in l]
+        res = last[-1].strip() if last else "no summary (rc=%d)" % p.returncode
+    except subprocess.TimeoutExpired:
+        res = "timeout"
+    ctx.extra["tlaps"] = {"module": "spec/proofs/AudioObsProofs.tla", "result": res, "wall_s": round(time.time() - t0, 1)}
+    ctx.log("TLAPS AudioObsProofs (guards of AudioObs imply the promise, unbounded): %s" % res)
+
+
 # ==================================================================================================
 def check(ctx):
     common.import_audiolazy()
     h = schedmod.Harness(common.REPO)
     m1(ctx)
     if ctx.thorough:
+        tlaps(ctx)
         m2(ctx, h, "AudioIO_coarse_nowait.cfg", False)
         m2(ctx, h, "AudioIO_coarse_wait.cfg", True)
     else:
